@@ -29,7 +29,12 @@ func init() {
 			"(Y3) the fork-join runs first over the primary list, and over the fallback list exactly when the primary error is non-nil, the fallback list is non-empty and " +
 			"isTimeoutError || isSyncingError || isBadGateway holds for that error (decided over all valuations, following boolean helpers); each run's result is what provide returns; submit delegates to provide with its own lists and work function; " +
 			"(Y4) every method of multi other than the nine listed node-management helpers makes exactly one provide/submit call (itself, or through one in-package helper it hands its receiver to) with the receiver's clients and fallbacks, whose work function " +
-			"calls the same-named method of args.client exactly once per execution and returns its results, never reports success without having called the node, and the method returns the outcome (error possibly wrapped); nothing else reads multi.clients / multi.fallbacks.",
+			"calls the same-named method of args.client exactly once per execution and returns its results, never reports success without having called the node, and the method returns the outcome (error possibly wrapped); nothing else reads multi.clients / multi.fallbacks; " +
+			"(Y5) app/forkjoin honours the options provide relies on: WithoutFailFast / WithWorkers set their fields, New starts options.workers workers, a worker never cancels the shared context with fail-fast off, " +
+			"and the cancel function blocks only when options.waitOnCancel (off by default) is set; (Y6) the fallback classifiers test error classes on the whole error tree; " +
+			"(Y7) context lineage: at every hand-over of a context towards a node request (multi method -> provide/submit and in-package helpers on the way -> forkjoin.New -> forkjoin worker's call of the work function -> " +
+			"submit's adapter -> args.client.<Method>) no value the context argument may hold is a detached context (context.Background / TODO / WithoutCancel or derived from one), followed field-sensitively through " +
+			"parameter objects, captured variables, literals invoked directly and context-returning helpers of the module.",
 		NotDecided: "latency and completion orders at run time, scheduling inside forkjoin (goroutines, channel closing), the error-class string/errno tables of the three classifiers, " +
 			"behaviour of the individual node clients (lazy, httpAdapter), which of several successful answers wins.",
 		Run: c19,
@@ -119,6 +124,12 @@ func init() {
 				Old: "\t\to.workers = w\n", New: "\t\to.workers = defaultWorkers\n"},
 			{ID: "C19-Y5-default-worker-count", File: ff, Expect: "Y5|starts options.workers",
 				Old: "for range options.workers { // Start workers", New: "for range defaultWorkers { // Start workers"},
+			{ID: "C19-Y5-cancel-always-waits", File: ff, Expect: "Y5|cancel waits",
+				Old: "\t\tif options.waitOnCancel {\n\t\t\t<-done\n\t\t}\n", New: "\t\t<-done\n"},
+			{ID: "C19-Y5-wait-on-cancel-by-default", File: ff, Expect: "Y5|cancel waits",
+				Old: "defaultWaitOnCancel = false", New: "defaultWaitOnCancel = true"},
+			{ID: "C19-Y5-cancel-waits-unless-asked", File: ff, Expect: "Y5|cancel waits",
+				Old: "\t\tif options.waitOnCancel {\n\t\t\t<-done\n", New: "\t\tif !options.waitOnCancel {\n\t\t\t<-done\n"},
 			// Y6
 			{ID: "C19-Y6-apierr-assert", File: fw, Expect: "Y6|isBadGateway",
 				Old: "\t\tvar apiErr *eth2api.Error\n\t\tif errors.As(current, &apiErr) {", New: "\t\tif apiErr, ok := current.(*eth2api.Error); ok {"},
@@ -128,6 +139,19 @@ func init() {
 				Old: "if errno := new(syscall.Errno); errors.As(current, errno) {\n\t\t\tswitch *errno {", New: "if errno, ok := current.(syscall.Errno); ok {\n\t\t\tswitch errno {"},
 			{ID: "C19-Y6-sentinel-compare", File: fw, Expect: "Y6|isBadGateway",
 				Old: "if errors.Is(current, http.ErrAbortHandler) {", New: "if current == http.ErrAbortHandler {"},
+			// Y7
+			{ID: "C19-Y7-node-call-background", File: fg, Expect: "Y7|AttestationData",
+				Old: "return args.client.AttestationData(ctx, opts)", New: "return args.client.AttestationData(context.Background(), opts)"},
+			{ID: "C19-Y7-provide-without-cancel", File: fm, Expect: "Y7|ActiveValidators",
+				Old: "provide(ctx, m.clients, m.fallbacks,\n\t\tfunc(ctx context.Context, args provideArgs) (ActiveValidators, error) {",
+				New: "provide(context.WithoutCancel(ctx), m.clients, m.fallbacks,\n\t\tfunc(ctx context.Context, args provideArgs) (ActiveValidators, error) {"},
+			{ID: "C19-Y7-submit-adapter-todo", File: fw, Expect: "Y7|work function",
+				Old: "\t\t\treturn empty{}, work(ctx, args)\n", New: "\t\t\treturn empty{}, work(context.TODO(), args)\n"},
+			{ID: "C19-Y7-worker-context-detached", File: ff, Expect: "Y7|forkjoin work function",
+				Old: "workCtx, cancelWorkers := context.WithCancel(rootCtx)", New: "workCtx, cancelWorkers := context.WithCancel(context.WithoutCancel(rootCtx))"},
+			{ID: "C19-Y7-submit-timeout-on-background", File: fg, Expect: "Y7|SubmitAttestations",
+				Old: "\t\t\treturn args.client.SubmitAttestations(ctx, opts)\n",
+				New: "\t\t\tsctx, cancel := context.WithTimeout(context.Background(), time.Minute)\n\t\t\tdefer cancel()\n\n\t\t\treturn args.client.SubmitAttestations(sctx, opts)\n"},
 			// Y4
 			{ID: "C19-Y4-first-client-directly", File: fg, Expect: "Y4|AttestationData",
 				Old: "return args.client.AttestationData(ctx, opts)", New: "return m.clients[0].AttestationData(ctx, opts)"},
@@ -974,8 +998,9 @@ func c19(c *rt.Ctx) {
 	c.Rule("Y2", 6, func() { c19Y2(c) })
 	c.Rule("Y3", 9, func() { c19Y3(c) })
 	c.Rule("Y4", 55, func() { c19Y4(c) })
-	c.Rule("Y5", 4, func() { c19Y5(c) })
+	c.Rule("Y5", 5, func() { c19Y5(c) })
 	c.Rule("Y6", 3, func() { c19Y6(c) })
+	c.Rule("Y7", 46, func() { c19Y7(c) })
 }
 
 func c19Y1(c *rt.Ctx) {
@@ -987,8 +1012,21 @@ func c19Y1(c *rt.Ctx) {
 		c.Bail("forkjoin.New: unexpected argument count %d", len(args))
 	}
 	pos := s.newCall.Pos()
-	c.Check("provide forkjoin.New runs the caller's work function", pos, s.only(nil, args[1], s.work) && s.only(nil, args[0], s.ctx),
-		"the context / work function handed to forkjoin.New are not provide's ctx and work parameters")
+	ctxSt, ctxWhy := rt.OK, ""
+	if !s.only(nil, args[0], s.ctx) {
+		// a context derived from provide's (context.WithCancel(ctx), a helper passing it on) is as good
+		ctxSt, ctxWhy = c19n4Derives(args[0], func(r ssa.Value) bool { return r == s.ctx || s.only(nil, r, s.ctx) })
+	}
+	switch {
+	case !s.only(nil, args[1], s.work):
+		c.Bad("provide forkjoin.New runs the caller's work function", pos, "the work function handed to forkjoin.New is not provide's work parameter")
+	case ctxSt == rt.Violation:
+		c.Bad("provide forkjoin.New runs the caller's work function", pos, "the context handed to forkjoin.New is not provide's ctx parameter: "+ctxWhy)
+	case ctxSt == rt.Undecided:
+		c.Unsure("provide forkjoin.New runs the caller's work function", pos, "the context handed to forkjoin.New: "+ctxWhy)
+	default:
+		c.Good("provide forkjoin.New runs the caller's work function", pos, "")
+	}
 	opts, ok := c19SliceLit(an.Resolve(args[2]))
 	if !ok {
 		c.Unsure("provide forkjoin.New options", pos, "options are not a literal argument list")
@@ -2733,8 +2771,14 @@ func c19Submit_(c *rt.Ctx, s *c19Shape) {
 	if !c19Only(a[1], sub.Params[1]) || !c19Only(a[2], sub.Params[2]) {
 		good, why = false, "submit does not hand its clients and fallbacks (in that order) to provide"
 	}
+	unsureCtx := ""
 	if !c19Only(a[0], sub.Params[0]) {
-		good, why = false, "submit does not hand its context to provide"
+		switch st, w := c19n4Derives(a[0], func(r ssa.Value) bool { return r == ssa.Value(sub.Params[0]) }); st {
+		case rt.Violation:
+			good, why = false, "submit does not hand its context to provide: "+w
+		case rt.Undecided:
+			unsureCtx = w
+		}
 	}
 	// the work adapter calls submit's work with the node it was given and returns its error
 	w, wrecv := c19FuncOf(a[3])
@@ -2780,6 +2824,10 @@ func c19Submit_(c *rt.Ctx, s *c19Shape) {
 		if ok, _ := c19Outcome(r, nil, e1); !ok {
 			good, why = false, "submit does not return provide's error"
 		}
+	}
+	if good && unsureCtx != "" {
+		c.Unsure("submit delegates to provide", pc.Pos(), "the context submit hands to provide: "+unsureCtx)
+		return
 	}
 	c.Check("submit delegates to provide", pc.Pos(), good, why)
 }
